@@ -1,6 +1,7 @@
 /- Histories with fewer allocations than there are IDs never wrap the ID counter: every ID handed out
 is larger than every ID handed out before, so `FreshRun` holds. -/
 import Ldap3V.Lemmas.ConnAcctStep
+import Ldap3V.Lemmas.IdAlloc
 namespace Ldap3V.Conn
 
 def ids (ops : List Op) : List Nat := ops.map (·.id)
@@ -126,12 +127,30 @@ def isAlloc : Ev → Bool
 
 def allocCount (evs : List Ev) : Nat := evs.countP isAlloc
 
-theorem freshRun_of_nowrap (evs : List Ev) : ∀ s, Below s → s.last + allocCount evs ≤ s.N → FreshRun s evs := by
+/-- the stronger freshness hypothesis used for uniqueness (C05): an ID handed out is not the ID of a
+call that is between allocating its ID and having its request taken off the queue by the driver.
+Like `FreshAt` it can only fail after a full wrap of the ID space (finding F13). -/
+def FreshAt2 (s : St) (e : Ev) : Prop :=
+  ∀ kind, e = .alloc kind → ∀ k, nextId s.N s.last s.inUse = .ok k →
+    ∀ (i : Nat) (o : Op), s.ops[i]? = some o → (o.phase = .allocated ∨ i ∈ s.opQ) → o.id ≠ k
+
+def FreshRun2 : St → List Ev → Prop
+  | _, [] => True
+  | s, e :: es => FreshAt2 s e ∧ FreshRun2 (next s e) es
+
+theorem FreshAt2.weaken {s : St} {e : Ev} (h : FreshAt2 s e) : FreshAt s e :=
+  fun kind he k hk i hi o ho => h kind he k hk i o ho (Or.inr hi)
+
+theorem FreshRun2.weaken : ∀ (evs : List Ev) (s : St), FreshRun2 s evs → FreshRun s evs
+  | [], _, _ => trivial
+  | _ :: es, s, h => ⟨h.1.weaken, FreshRun2.weaken es _ h.2⟩
+
+theorem freshRun2_of_nowrap (evs : List Ev) : ∀ s, Below s → s.last + allocCount evs ≤ s.N → FreshRun2 s evs := by
   induction evs with
   | nil => intro s _ _; trivial
   | cons e es ih =>
     intro s hb hn
-    show FreshAt s e ∧ FreshRun (next s e) es
+    show FreshAt2 s e ∧ FreshRun2 (next s e) es
     by_cases ha : ∃ kind, e = .alloc kind
     · obtain ⟨kind, rfl⟩ := ha
       have hc : allocCount (Ev.alloc kind :: es) = allocCount es + 1 := by
@@ -139,11 +158,10 @@ theorem freshRun_of_nowrap (evs : List Ev) : ∀ s, Below s → s.last + allocCo
       have hlt : s.last < s.N := by omega
       have hnext := nextId_nowrap s.N s.last s.inUse hb.2 hlt
       refine ⟨?_, ?_⟩
-      · intro kind' _ k hk
+      · intro kind' _ k hk i o ho _
         rw [hnext] at hk
         simp only [AllocOut.ok.injEq] at hk
         subst hk
-        intro i _ o ho
         have : o.id ∈ ids s.ops := by
           unfold ids; exact List.mem_map.mpr ⟨o, List.mem_of_getElem? ho, rfl⟩
         have := hb.1 _ this
@@ -187,10 +205,77 @@ theorem freshRun_of_nowrap (evs : List Ev) : ∀ s, Below s → s.last + allocCo
         · exact ⟨by rw [f1, f2]; exact hb.1, fun k hk => by rw [f2]; exact hb.2 k (f4 k hk)⟩
         · rw [f2, f3]; omega
 
-/-- every history with at most `N` allocations satisfies the freshness hypothesis -/
-theorem freshRun_init (N : Nat) (evs : List Ev) (h : allocCount evs ≤ N) : FreshRun (Conn.init N) evs := by
-  apply freshRun_of_nowrap
+theorem freshRun_of_nowrap (evs : List Ev) (s : St) (hb : Below s) (hn : s.last + allocCount evs ≤ s.N) : FreshRun s evs :=
+  FreshRun2.weaken evs s (freshRun2_of_nowrap evs s hb hn)
+
+/-- every history with at most `N` allocations satisfies both freshness hypotheses -/
+theorem freshRun2_init (N : Nat) (evs : List Ev) (h : allocCount evs ≤ N) : FreshRun2 (Conn.init N) evs := by
+  apply freshRun2_of_nowrap
   · exact ⟨fun x hx => by simp [Conn.init, ids] at hx, fun k hk => by simp [Conn.init] at hk⟩
   · simp only [Conn.init]; omega
+
+theorem freshRun_init (N : Nat) (evs : List Ev) (h : allocCount evs ≤ N) : FreshRun (Conn.init N) evs :=
+  FreshRun2.weaken evs _ (freshRun2_init N evs h)
+
+/-- every ID ever handed out is within `1..N` -/
+def InRange (s : St) : Prop :=
+  s.last ≤ s.N ∧ (s.last = 0 → s.inUse = []) ∧ ∀ x ∈ ids s.ops, 1 ≤ x ∧ x ≤ s.N
+
+theorem inRange_run (evs : List Ev) : ∀ s, 1 ≤ s.N → InRange s → InRange (Conn.run s evs) ∧ (Conn.run s evs).N = s.N := by
+  induction evs with
+  | nil => intro s _ h; exact ⟨h, rfl⟩
+  | cons e es ih =>
+    intro s hN h
+    rw [run_cons]
+    cases hst : Conn.step s e with
+    | none =>
+      have : next s e = s := by simp only [next, hst]
+      rw [this]; exact ih s hN h
+    | some p =>
+      obtain ⟨s', ob⟩ := p
+      have : next s e = s' := by simp only [next, hst]
+      rw [this]
+      suffices hs' : InRange s' ∧ s'.N = s.N by
+        obtain ⟨r1, r2⟩ := ih s' (by rw [hs'.2]; exact hN) hs'.1
+        exact ⟨r1, r2.trans hs'.2⟩
+      by_cases ha : ∃ kind, e = .alloc kind
+      · obtain ⟨kind, rfl⟩ := ha
+        cases hn : nextId s.N s.last s.inUse with
+        | diverge => simp [Conn.step, hn] at hst
+        | panic =>
+          simp only [Conn.step, hn, Option.some.injEq, Prod.mk.injEq] at hst
+          rw [← hst.1]; exact ⟨h, rfl⟩
+        | ok k =>
+          obtain ⟨f1, f2, f3, f4⟩ := alloc_frame hn hst
+          have hk : 1 ≤ k ∧ k ≤ s.N := by
+            by_cases h0 : s.last = 0
+            · rw [h0, h.2.1 h0, nextId_fresh s.N hN] at hn
+              simp only [AllocOut.ok.injEq] at hn
+              omega
+            · have hl : 1 ≤ s.last := by omega
+              rw [nextId_eq s.N s.last s.inUse hl h.1] at hn
+              cases hf : firstFree s.inUse (candidates s.N s.last) with
+              | none => rw [hf] at hn; simp [outOf] at hn
+              | some a =>
+                rw [hf] at hn
+                simp only [outOf, AllocOut.ok.injEq] at hn
+                subst hn
+                have hmem : a ∈ candidates s.N s.last := List.mem_of_find?_eq_some hf
+                exact (mem_candidates s.N s.last a h.1).mp hmem
+          refine ⟨⟨by rw [f1, f2]; exact hk.2, fun h0 => by rw [f1] at h0; omega, ?_⟩, f2⟩
+          intro x hx
+          rw [f4, f2] at *
+          simp only [List.mem_append, List.mem_singleton] at hx
+          rcases hx with hx | hx
+          · exact h.2.2 x hx
+          · rw [hx]; exact hk
+      · have hna : ∀ kind, e ≠ .alloc kind := fun kind he => ha ⟨kind, he⟩
+        obtain ⟨f1, f2, f3, f4⟩ := step_frame e hst hna
+        refine ⟨⟨by rw [f2, f3]; exact h.1, fun h0 => ?_, by rw [f1, f3]; exact h.2.2⟩, f3⟩
+        rw [f2] at h0
+        have := h.2.1 h0
+        cases hi : s'.inUse with
+        | nil => rfl
+        | cons a l => have := f4 a (by rw [hi]; simp); rw [h.2.1 h0] at this; cases this
 
 end Ldap3V.Conn
